@@ -193,6 +193,8 @@ pub const VARIANTS: &[&str] = &[
     "ctl-target-macro",
     "ctl-concat",
     "layout-trap",
+    "reserved-texture",
+    "reserved-sampler",
 ];
 
 fn decls_of(p: &Program) -> Vec<DeclDesc> {
@@ -339,12 +341,10 @@ fn build_with(seed: u64, variant: &str, drops: &str) -> Option<Built> {
     }
     // program-level edits
     if let Some(which) = variant.strip_prefix("reserved-") {
+        // `reserved-<identifier>`: the first non-cbuffer resource gets that name; `reserved-cb`: a cbuffer named `matrix`
         let (name, want_cb) = match which {
-            "matrix" => ("matrix", false),
-            "vector" => ("vector", false),
-            "double" => ("double", false),
-            "kernel" => ("kernel", false),
             "cb" => ("matrix", true),
+            n if !n.is_empty() && n.chars().all(|c| c.is_ascii_alphanumeric() || c == '_') => (n, false),
             _ => return None,
         };
         let idx = prog.resources.iter().position(|r| (r.kind == "cbuffer") == want_cb);
